@@ -42,21 +42,21 @@ type respSpec struct {
 }
 
 type hitCase struct {
-	TargeterErr string     `json:"targeter_err,omitempty"` // non-empty: the targeter fails with this text
-	Method      string     `json:"method"`
-	URL         string     `json:"url"`
-	Body        []byte     `json:"body"`
-	Header      []hdrEntry `json:"header"`
-	MaxBody     int64      `json:"max_body"`
-	Chunked     bool       `json:"chunked"`
-	RedirSet    bool       `json:"redirects_set"`
-	Redirects   int        `json:"redirects"`
-	Name        string     `json:"name"`
-	Seq         uint64     `json:"seq"`
-	Hops        []respSpec `json:"hops"`          // redirect responses (Location header included)
-	TransportErr string    `json:"transport_err"` // non-empty: the last RoundTrip fails with this text
-	Final       *respSpec  `json:"final,omitempty"`
-	Chunks      []int      `json:"chunks"`
+	TargeterErr  string     `json:"targeter_err,omitempty"` // non-empty: the targeter fails with this text
+	Method       string     `json:"method"`
+	URL          string     `json:"url"`
+	Body         []byte     `json:"body"`
+	Header       []hdrEntry `json:"header"`
+	MaxBody      int64      `json:"max_body"`
+	Chunked      bool       `json:"chunked"`
+	RedirSet     bool       `json:"redirects_set"`
+	Redirects    int        `json:"redirects"`
+	Name         string     `json:"name"`
+	Seq          uint64     `json:"seq"`
+	Hops         []respSpec `json:"hops"`          // redirect responses (Location header included)
+	TransportErr string     `json:"transport_err"` // non-empty: the last RoundTrip fails with this text
+	Final        *respSpec  `json:"final,omitempty"`
+	Chunks       []int      `json:"chunks"`
 }
 
 // ---------- fakes ----------
